@@ -928,7 +928,8 @@ def tie_equal(e, m, key: str) -> bool:
     if e["ok"]:
         if key.startswith("val"):
             return True
-        return norm_rows(e["rows"]) == norm_rows(m["rows"])
+        # (sort AFTER normalising: the two sides are sorted by their un-normalised spelling, '7901…/64' sorts differently from '1234…/1')
+        return sorted(norm_rows(e["rows"]), key=repr) == sorted(norm_rows(m["rows"]), key=repr)
     if (e["code"], m["code"]) in LENIENT:
         return True
     return e["stage"] == m["stage"] and e["code"] == m["code"]
